@@ -206,6 +206,9 @@ func (s *Sim) startCore() error {
 }
 
 func (s *Sim) extraConfig() map[string]string {
+	if os.Getenv("VERIF_CORELOG") != "" {
+		return map[string]string{"log.level": "DEBUG"}
+	}
 	return map[string]string{"log.level": "FATAL"}
 }
 
